@@ -53,6 +53,10 @@ def run(ctx):
 
     doh_stage(ctx)
     big_compressed(ctx)
+    # what Resolve answers when two callers meet on one cache entry (a caller that waited for another caller's refresh answers
+    # with the refreshed data, not with what it saw before waiting): the parked interleavings of ResolverCache.tla
+    import c16
+    c16.parked_stage(ctx)
 
     # direction B: seeded random DNS universes (chains and loops of any length, CNAME chains, error names, poisoned answers);
     # TLC runs Resolve.tla on each recorded universe and the observed result / queries must be the specification's
